@@ -84,3 +84,8 @@ Theorem C10_set_ttl_succeeds : forall v it t qls qt lA lN lR r x,
   exists s', m_set_ttl t (v, it) = (s', Ok tt).
 Proof. exact set_ttl_total. Qed.
 Print Assumptions C10_set_ttl_succeeds.
+
+(** a name the checker refuses changes nothing, on any object, compressed or not, and any cursor *)
+Theorem C10_refused_name_changes_nothing : forall nm s e, check_compressed_name nm 0 = Err e -> m_set_raw_name nm s = (s, Err e).
+Proof. exact set_raw_name_invalid. Qed.
+Print Assumptions C10_refused_name_changes_nothing.
